@@ -168,3 +168,125 @@ theorem module_run_marks (g : Geom) {xs : Word} {ms : List Nat} {e : Nat}
   refine ⟨by omega, by omega, by omega, by omega, by omega, by omega⟩
 
 end Moclo
+
+namespace Moclo
+
+/-! ## the generic vector structure -/
+
+def vecHead (g : Geom) : Pat :=
+  [.cls .N, .gopen] ++ nRun g.k ++ [.gclose, .gopen] ++ nRun g.off ++ lits (rcNt g.site)
+def vecTail (g : Geom) : Pat :=
+  lits g.site ++ nRun g.off ++ [.gclose, .gopen] ++ nRun g.k ++ [.gclose, .cls .N]
+
+theorem vectorStructure_eq (g : Geom) : vectorStructure g = vecHead g ++ ([.star .N true] ++ vecTail g) := by
+  simp [vectorStructure, vecHead, vecTail, List.append_assoc]
+
+theorem letters_vecHead (g : Geom) : letters (vecHead g) = List.replicate (1 + g.k + g.off) .N ++ rcNt g.site := by
+  have e1 : letters [Tok.cls Nt.N, Tok.gopen] = [Nt.N] := rfl
+  have e2 : letters [Tok.gclose, Tok.gopen] = [] := rfl
+  simp only [vecHead, letters_append, letters_lits, letters_nRun, e1, e2, List.append_nil, List.append_assoc]
+  have : 1 + g.k + g.off = 1 + (g.k + g.off) := by omega
+  rw [this, List.replicate_add, List.replicate_add]
+  simp only [List.append_assoc]; rfl
+
+theorem letters_vecTail (g : Geom) : letters (vecTail g) = g.site ++ List.replicate (g.off + g.k + 1) .N := by
+  have e1 : letters [Tok.gclose, Tok.cls Nt.N] = [Nt.N] := rfl
+  have e2 : letters [Tok.gclose, Tok.gopen] = [] := rfl
+  simp only [vecTail, letters_append, letters_lits, letters_nRun, e1, e2, List.append_nil, List.append_assoc]
+  congr 1
+  have : g.off + g.k + 1 = g.off + (g.k + 1) := by omega
+  rw [this, List.replicate_add, List.replicate_add]; rfl
+
+theorem width_vecHead (g : Geom) : width (vecHead g) = (1 + g.k + g.off) + g.site.length := by
+  rw [← letters_length, letters_vecHead]; simp [rcNt]
+
+theorem width_vecTail (g : Geom) : width (vecTail g) = g.site.length + (g.off + g.k + 1) := by
+  rw [← letters_length, letters_vecTail]; simp
+
+theorem starFree_vecHead (g : Geom) : starFree (vecHead g) = true := by
+  simp [vecHead, starFree_append, starFree_lits, starFree_nRun, starFree]
+
+theorem starFree_vecTail (g : Geom) : starFree (vecTail g) = true := by
+  simp [vecTail, starFree_append, starFree_lits, starFree_nRun, starFree]
+
+/-- **the documented vector shape is accepted by the generic vector structure**: a word `A · S' · P · S · B`
+with `S'` recognised as the reverse complement of the site, `S` as the site, `A`, `P`, `B` wildcard-compatible,
+`|A| = 1 + k + off`, `|B| = off + k + 1`, is an exact fit -/
+theorem vector_fits (g : Geom) (A S' P S B : Word)
+    (hS : matchesAt g.site S) (hSl : S.length = g.site.length)
+    (hS' : matchesAt (rcNt g.site) S') (hS'l : S'.length = g.site.length)
+    (hA : ∀ x ∈ A, clsMatch .N x = true) (hAl : A.length = 1 + g.k + g.off)
+    (hP : ∀ x ∈ P, clsMatch .N x = true)
+    (hB : ∀ x ∈ B, clsMatch .N x = true) (hBl : B.length = g.off + g.k + 1) :
+    ∃ ms, Run (vectorStructure g) (A ++ S' ++ P ++ S ++ B) 0 ms (A ++ S' ++ P ++ S ++ B).length := by
+  have hrl : (rcNt g.site).length = g.site.length := by simp [rcNt]
+  have hhead : matchesAt (letters (vecHead g)) (A ++ S' ++ P ++ S ++ B) := by
+    rw [letters_vecHead, ← hAl]
+    have := matchesAt_append (matchesAt_replicate hA) (by simp) hS'
+    simpa [List.append_assoc] using matchesAt_extend this (P ++ S ++ B)
+  obtain ⟨msH, rH⟩ := Run.of_matches_marks 0 (starFree_vecHead g) hhead
+  have htail : matchesAt (letters (vecTail g)) (S ++ B) := by
+    rw [letters_vecTail, ← hBl]
+    exact matchesAt_append hS hSl (matchesAt_replicate hB)
+  obtain ⟨msT, rT⟩ := Run.of_matches_marks ((A ++ S' ++ P).length) (starFree_vecTail g) htail
+  have rStar : Run ([Tok.star Nt.N true] ++ vecTail g) (P ++ S ++ B) ((A ++ S').length) msT
+      ((A ++ S' ++ P).length + width (vecTail g)) := by
+    refine Run.star P.length (by simp) (by simpa using hP) ?_
+    have : (P ++ S ++ B).drop P.length = S ++ B := by simp [List.append_assoc]
+    rw [this]
+    have e : (A ++ S').length + P.length = (A ++ S' ++ P).length := by simp only [List.length_append]
+    rw [e]; exact rT
+  refine ⟨msH ++ msT, ?_⟩
+  rw [vectorStructure_eq]
+  have hw : 0 + width (vecHead g) = (A ++ S').length := by
+    rw [width_vecHead]; simp [hS'l, hAl]
+  rw [hw] at rH
+  have := Run.join rH (by
+    have : (A ++ S' ++ P ++ S ++ B).drop ((A ++ S').length - 0) = P ++ S ++ B := by
+      simp [List.append_assoc]
+    rw [this]; exact rStar)
+  have he : (A ++ S' ++ P).length + width (vecTail g) = (A ++ S' ++ P ++ S ++ B).length := by
+    rw [width_vecTail]; simp [hBl, hSl, List.length_append]; omega
+  rw [he] at this
+  exact this
+
+theorem vectorStructure_threeGroup (g : Geom) :
+    vectorStructure g = threeGroup [.cls .N] (nRun g.k)
+      (nRun g.off ++ lits (rcNt g.site) ++ [.star .N true] ++ lits g.site ++ nRun g.off) (nRun g.k) [.cls .N] := by
+  simp [vectorStructure, threeGroup, List.append_assoc]
+
+/-- the marks of any run of the generic vector structure that ends at `e` -/
+theorem vector_run_marks (g : Geom) {xs : Word} {ms : List Nat} {e : Nat}
+    (h : Run (vectorStructure g) xs 0 ms e) :
+    ms = [1, 1 + g.k, 1 + g.k, e - (g.k + 1), e - (g.k + 1), e - 1] ∧
+    1 + g.k + (g.off + g.site.length + g.site.length + g.off) + g.k + 1 ≤ e := by
+  rw [vectorStructure_threeGroup] at h
+  have m1 : markless ([.cls .N] : Pat) := by intro t ht; simp at ht; subst ht; rfl
+  have mg2 : markless (nRun g.off ++ lits (rcNt g.site) ++ [.star .N true] ++ lits g.site ++ nRun g.off) := by
+    refine markless_append' (markless_append' (markless_append' (markless_append' (markless_nRun' _) (markless_lits' _)) ?_)
+      (markless_lits' _)) (markless_nRun' _)
+    intro t ht; simp at ht; subst ht; rfl
+  obtain ⟨a1, b2, hms, h1, h2, rpre, _, rg2, _, rsuf⟩ := threeGroup_run m1 mg2 m1
+    (isFixed_nRun' g.k) (isFixed_nRun' g.k) h
+  have ea := (rpre.fixed rfl).1
+  have ee := (rsuf.fixed rfl).1
+  simp only [width] at ea ee
+  -- group 2 consumes at least its fixed letters
+  have hg2 : a1 + g.k + (g.off + g.site.length + g.site.length + g.off) ≤ b2 := by
+    have hsplit : nRun g.off ++ lits (rcNt g.site) ++ [.star .N true] ++ lits g.site ++ nRun g.off =
+        (nRun g.off ++ lits (rcNt g.site)) ++ ([.star .N true] ++ (lits g.site ++ nRun g.off)) := by
+      simp [List.append_assoc]
+    rw [hsplit] at rg2
+    obtain ⟨mid, _, _, q1, q2, _, _⟩ := rg2.split
+    have w1 := (q1.fixed (by simp [starFree_append, starFree_lits, starFree_nRun])).1
+    obtain ⟨mid2, _, _, _, q4, _, hle⟩ := q2.split
+    have w2 := (q4.fixed (by simp [starFree_append, starFree_lits, starFree_nRun])).1
+    rw [width_append, width_lits, width_nRun] at w1 w2
+    simp only [rcNt, List.length_reverse, List.length_map] at w1
+    omega
+  refine ⟨?_, by omega⟩
+  rw [hms]
+  simp only [List.cons.injEq, and_true]
+  refine ⟨by omega, by omega, by omega, by omega, by omega, by omega⟩
+
+end Moclo
